@@ -414,15 +414,23 @@ class SymNP:
         return self._minmax("min", a, b)
 
     def _minmax(self, name, a, b):
+        """np.maximum / np.minimum: NaN-propagating for inexact types; written as the
+        case analysis NumPy documents (so it is comparable term by term)"""
         sa, da, fa = self._as_operand(a)
         sb, db, fb = self._as_operand(b)
         shape = broadcast_shapes(sa, sb)
         n = len(shape)
         cdt = self._result_dtype(da, db)
         alg = self.alg
+        cmp = "cmp>" if name == "max" else "cmp<"
 
         def at(idx):
-            return alg.op(name, alg.cast(cdt, fa(_bidx(sa, n, idx))), alg.cast(cdt, fb(_bidx(sb, n, idx))))
+            x0, y0 = fa(_bidx(sa, n, idx)), fb(_bidx(sb, n, idx))
+            x, y = alg.cast(cdt, x0), alg.cast(cdt, y0)
+            pick = alg.select(alg.op(cmp, x0, y0), lambda: x, lambda: y)
+            if cdt.kind in "fc":
+                return alg.select(alg.op("or", alg.call("isnan", x0), alg.call("isnan", y0)), alg.nan, lambda: pick)
+            return pick
         return LArr(self, shape, cdt, at)
 
     def logical_not(self, a):
